@@ -38,11 +38,14 @@ type citem struct {
 	body   []citem
 }
 
-func cStr(s string) cval  { return cval{kind: "str", s: s} }
-func cNum(s string) cval  { return cval{kind: "num", s: s} }
-func cBool(s string) cval { return cval{kind: "bool", s: s} }
-func cRef(a string) cval  { return cval{kind: "ref", s: a} }
-func cTmpl(a string) cval { return cval{kind: "tmpl", s: a} }
+func cStr(s string) cval { return cval{kind: "str", s: s} }
+
+// cStrLit is a string meant literally although it holds template sequences: both syntaxes write them escaped.
+func cStrLit(s string) cval { return cval{kind: "strlit", s: s} }
+func cNum(s string) cval    { return cval{kind: "num", s: s} }
+func cBool(s string) cval   { return cval{kind: "bool", s: s} }
+func cRef(a string) cval    { return cval{kind: "ref", s: a} }
+func cTmpl(a string) cval   { return cval{kind: "tmpl", s: a} }
 func cList(xs ...cval) cval {
 	return cval{kind: "list", items: xs}
 }
@@ -59,6 +62,8 @@ func (v cval) native() string {
 	switch v.kind {
 	case "str":
 		return fmt.Sprintf("%q", v.s)
+	case "strlit":
+		return fmt.Sprintf("%q", strings.ReplaceAll(strings.ReplaceAll(v.s, "${", "$${"), "%{", "%%{"))
 	case "num", "bool":
 		return v.s
 	case "ref", "reflegacy":
@@ -89,6 +94,8 @@ func (v cval) json() any {
 	switch v.kind {
 	case "str":
 		return v.s
+	case "strlit":
+		return strings.ReplaceAll(strings.ReplaceAll(v.s, "${", "$${"), "%{", "%%{")
 	case "num":
 		var f float64
 		fmt.Sscanf(v.s, "%g", &f)
@@ -216,7 +223,9 @@ func c19Schema() *schema.BodySchema {
 	return &schema.BodySchema{
 		Attributes: map[string]*schema.AttributeSchema{
 			"s": anyOf(cty.String), "n": anyOf(cty.Number), "b": anyOf(cty.Bool), "l": anyOf(cty.List(cty.String)), "m": anyOf(cty.Map(cty.String)), "o": anyOf(objT),
-			"r":   {Constraint: schema.Reference{OfType: cty.String}, IsOptional: true},
+			"r": {Constraint: schema.Reference{OfType: cty.String}, IsOptional: true},
+			// a read-only attribute (computed, neither optional nor required) that a configuration sets all the same
+			"cmp": {Constraint: schema.AnyExpression{OfType: cty.String}, IsComputed: true},
 			"lit": {Constraint: schema.LiteralType{Type: cty.String}, IsOptional: true},
 			"obj": {Constraint: schema.Object{Attributes: schema.ObjectAttributes{"foo": anyOf(cty.String), "bar": anyOf(cty.Bool)}}, IsOptional: true},
 			"lst": {Constraint: schema.List{Elem: schema.AnyExpression{OfType: cty.String}}, IsOptional: true},
@@ -257,6 +266,8 @@ func c19Schema() *schema.BodySchema {
 					depKey(nil, []schema.AttributeDependent{attrDep("kind", cty.StringVal("web"))}): {Attributes: map[string]*schema.AttributeSchema{"port": anyOf(cty.String)},
 						Blocks: map[string]*schema.BlockSchema{"tls": {Body: &schema.BodySchema{Attributes: map[string]*schema.AttributeSchema{"cert": anyOf(cty.String)}}}}},
 					depKey(nil, []schema.AttributeDependent{attrDep("kind", cty.StringVal("db"))}): {Attributes: map[string]*schema.AttributeSchema{"engine": anyOf(cty.String)}},
+					// a key value that holds a template sequence literally (written escaped in both syntaxes)
+					depKey(nil, []schema.AttributeDependent{attrDep("kind", cty.StringVal("k${x}"))}): {Attributes: map[string]*schema.AttributeSchema{"lit": anyOf(cty.String)}},
 					// a key value that is spelled like a traversal
 					depKey(nil, []schema.AttributeDependent{attrDep("kind", cty.StringVal("apps.v1"))}): {Attributes: map[string]*schema.AttributeSchema{"replicas": anyOf(cty.Number)}},
 				}},
@@ -355,6 +366,8 @@ func c19Configs() [][]citem {
 	out = append(out, []citem{blk("variable", []string{"a"}), blk("svc", []string{"a"}, attr("kind", cStr("web")), attr("port", cRef("var.a")), blk("tls", nil, attr("cert", cStr("c")))), blk("svc", []string{"b"}, attr("kind", cStr("db")), attr("engine", cRef("var.a")))})
 	out = append(out, []citem{blk("variable", []string{"a"}), blk("svc", []string{"b"}, attr("kind", cStr("db")), attr("engine", cRef("var.a"))), blk("svc", []string{"a"}, attr("kind", cStr("web")), attr("port", cRef("var.a")), blk("tls", nil, attr("cert", cStr("c"))))})
 	out = append(out, []citem{blk("variable", []string{"a"}), blk("svc", []string{"c"}, attr("kind", cStr("apps.v1")), attr("replicas", cRef("var.a")))})
+	out = append(out, []citem{blk("variable", []string{"a"}), blk("svc", []string{"e"}, attr("kind", cStrLit("k${x}")), attr("lit", cRef("var.a")))})
+	out = append(out, []citem{blk("variable", []string{"a"}), attr("cmp", cRef("var.a")), attr("s", cStr("x y"))})
 	out = append(out, []citem{blk("variable", []string{"a"}), blk("prv", []string{"p"}, attr("alias", cStr("west"))), blk("prv", []string{"q"}), blk("prv", []string{"r"}, attr("alias", cRef("var.a"))), blk("prv", []string{"s"}, attr("alias", cTmpl("var.a")))})
 	out = append(out, []citem{blk("variable", []string{"a"}), blk("xres", []string{"other", "b"}, attr("count", cRef("var.a"))), blk("xres", []string{"known", "c"}, attr("for_each", cRef("var.a")), attr("x", cRef("var.a"))),
 		blk("xres", []string{"other", "d"}, attr("for_each", cObj("k", cRef("var.a"))))})
